@@ -70,12 +70,12 @@ def obligations(ctx):
         obs.append(ob("cplx_to_tnx32/init/m=%d/avx=%d" % (m, avx), "h_cplx_to_tnx32", {"M": m, "AVX": avx, "DIVLOG": 2}, "cplx_to_tnx32 via init", timeout=1200))
     # the public constructors new_*_precomp against init_* for the same arguments (declared bound / overhead symbolic), incl. release of the object
     WK = {0: "reim_from_znx64", 1: "reim_to_znx64", 2: "reim_to_tnx", 3: "cplx_to_tnx32", 4: "reim4_from_cplx", 5: "reim4_to_cplx", 6: "reim4_fftvec_mul",
-          7: "reim4_fftvec_addmul", 8: "cplx_fftvec_mul", 9: "cplx_fftvec_addmul"}
+          7: "reim4_fftvec_addmul", 8: "cplx_fftvec_mul", 9: "cplx_fftvec_addmul", 10: "cplx_from_znx32", 11: "cplx_from_tnx32"}
     WLIBS = LIBS + [x for x in ("reim4/reim4_fftvec_addmul_ref.c", "reim4/reim4_fftvec_addmul_fma.c", "reim4/reim4_fftvec_conv_ref.c", "reim4/reim4_fftvec_conv_fma.c",
                                 "reim4/reim4_execute.c", "cplx/cplx_fftvec_ref.c", "cplx/cplx_fftvec_avx2_fma.c", "cplx/cplx_execute.c", "cplx/cplx_common.c",
                                 "reim/reim_to_tnx_ref.c", "reim/reim_to_tnx_avx.c") if x not in LIBS]
     for kind in sorted(WK):
-        for (m, avx) in ((8, 1), (4, 0)) if kind <= 3 else ((8, 1),):
+        for (m, avx) in ((8, 1), (4, 0)) if kind <= 3 else (((8, 1), (4, 1)) if kind >= 10 else ((8, 1),)):
             obs.append(Ob("constructor/new_%s_precomp/m=%d/avx=%d" % (WK[kind], m, avx), "wrappers.c", "h_wrappers", {"KIND": kind, "M": m, "AVX": avx, "DIVLOG": 3}, WLIBS,
                           unwind=20, flags=["--memory-leak-check"], family="new_*_precomp constructors", timeout=600,
                           desc="new_X_precomp(m, ...) returns an object whose every field equals what init_X_precomp computes for the same arguments (log2bound / "
